@@ -61,6 +61,13 @@ def gen_cases(rng, tier):
                 L = rng.randint(1, maxlen)
                 case["series"] = [dtwgen.rand_series(rng, L, 1) for _ in range(rng.randint(2, 4))]
                 case["as_matrix"] = True
+            if rng.random() < 0.25:
+                # short pairs first, long far-off-diagonal pairs later: state the first pair leaves in the
+                # settings shared by all pairs of the C matrix routine shows in the later pairs
+                case["series"] = dtwgen.shifted_peak_collection(rng)
+                case.pop("as_matrix", None)
+                if rng.random() < 0.7:
+                    s["window"] = None
             s["psi"] = None if s["psi"] is None or not isinstance(s["psi"], int) else min(
                 s["psi"], min(len(x) for x in case["series"]))
         cases.append(case)
